@@ -336,6 +336,18 @@ def run(ctx):
     EVOPAIRS = [(a, b) for a in EVOSHAPES for b in EVOSHAPES]
     for i in range(len(EVOPAIRS)):
         jobs.append(("evoshape", i))
+    # types that contain themselves through constructs of an *imported* package (a generic record, generic aliases of every body shape, two imports nested),
+    # directly, through optional / vector / map / union / array wrappers, and mutually; all targets generated
+    XLIB = ("Box<T>: !record\n  fields:\n    item: T\n    n: int\nSame<T>: T\nMaybe<T>: T?\nMany<T>: T*\nBoxed<T>: Box<T>\nKeyed<T>: string->T\nEither<T>: [T, string]\n"
+            "Pair<A, B>: !record\n  fields:\n    a: A\n    b: B\n")
+    XLIB2 = "Wrap<T>: !record\n  fields:\n    inner: T?\n"
+    XUSES = ["Lib.Box<Node>", "Lib.Box<Node>?", "Lib.Box<Node>*", "Lib.Same<Node>", "Lib.Maybe<Node>", "Lib.Many<Node>", "Lib.Boxed<Node>", "Lib.Keyed<Node>", "Lib.Either<Node>",
+             "Lib.Pair<int, Node>", "Lib.Pair<Node, Node>", "Lib.Box<Lib2.Wrap<Node>>", "Lib2.Wrap<Lib.Box<Node>>", "string->Lib.Box<Node>", "[int, Lib.Box<Node>]", "[null, int, Lib.Box<Node>]",
+             "Lib.Box<Node>[]", "Lib.Box<Node>[2]", "Lib.Box<Node*>", "Lib.Box<Node?>", "Lib.Box<string->Node>", "Lib.Box<[Node, int]>", "Lib.Box<Lib.Box<Lib.Box<Node>>>", "Lib.Box<Other>"]
+    XFORMS = ["field", "alias", "step", "computed"]
+    XJOBS = [(u, f) for u in XUSES for f in XFORMS]
+    for i in range(len(XJOBS)):
+        jobs.append(("xcycle", i))
     n_expr = len(fuzzgen.EXPRS) + (60 if quick else 2000)
     for i in range(n_expr):
         jobs.append(("expr", i))
@@ -427,6 +439,24 @@ def run(ctx):
             files[os.path.join(os.path.dirname(root_rel), "dupdep/_package.yml")] = "namespace: DupDep\n"
             files[os.path.join(os.path.dirname(root_rel), "dupdep/d.yml")] = "DupT: int\n"
             desc += " manifest tag/kind mismatch `%s`" % MTAGKIND[i].replace("\n", " | ")[:90]
+        elif kind == "xcycle":
+            use, form = XJOBS[i]
+            other = "Other: !record\n  fields:\n    back: Lib.Box<Node>?\n" if "Other" in use else ""
+            if form == "field":
+                body = "Node: !record\n  fields:\n    id: int\n    child: '%s'\n" % use
+            elif form == "alias":
+                body = "Node: '%s'\n" % use
+            elif form == "step":
+                body = "Node: !record\n  fields:\n    id: int\n    child: '%s'\nFlow: !protocol\n  sequence:\n    root: Node\n    more: !stream\n      items: '%s'\n" % (use, use)
+            else:
+                body = "Node: !record\n  fields:\n    id: int\n    child: '%s'\n  computedFields:\n    same: child\n    n: id + 1\n" % use
+            top = os.path.dirname(root_rel)
+            files = {root_rel + "/_package.yml": "namespace: %s\nimports:\n  - ../xlib\n  - ../xlib2\ncpp:\n  sourcesOutputDir: ../out/cpp\n  generateCMakeLists: false\npython:\n  outputDir: ../out/python\n"
+                                                 "matlab:\n  outputDir: ../out/matlab\njson:\n  outputDir: ../out/json\n" % pkg.ns,
+                     root_rel + "/model.yml": body + other,
+                     os.path.join(top, "xlib/_package.yml"): "namespace: Lib\n", os.path.join(top, "xlib/l.yml"): XLIB,
+                     os.path.join(top, "xlib2/_package.yml"): "namespace: Lib2\n", os.path.join(top, "xlib2/l.yml"): XLIB2}
+            desc += " self-containing type through an imported construct: %s as %s" % (use, form)
         elif kind == "cycle":
             forms = [("a", "b", None), ("a", "b + 1", None), ("a", "c", "b"), ("a", "a", None), ("a", "a + 1", None)]
             pats = ["int x", "int", "_", "float y", "null", "string s"]
